@@ -125,7 +125,11 @@ fn main() {
         // a raw libFuzzer artifact wrapped in JSON: re-judged through the byte decoder
         if let Some(hex) = case["raw_hex"].as_str() {
             let bytes: Vec<u8> = (0..hex.len() / 2).filter_map(|i| u8::from_str_radix(&hex[2 * i..2 * i + 2], 16).ok()).collect();
-            let rep = if prop == "C08" || prop == "C15" { vf::fuzzuci::replay_raw(&prop, &bytes) } else { vf::fuzzplay::replay_raw(&prop, &bytes) };
+            let rep = match prop.as_str() {
+                "C08" | "C15" => vf::fuzzuci::replay_raw(&prop, &bytes),
+                "C11" | "C12" | "C17" => vf::fuzzsearch::replay_raw(&prop, &bytes),
+                _ => vf::fuzzplay::replay_raw(&prop, &bytes),
+            };
             let v = finish(&ctx, p.level, p.rule, p.assumptions, rep, started);
             std::process::exit(v.exit_code);
         }
